@@ -14,7 +14,7 @@
 From Coq Require Import List ZArith Lia Bool Arith.
 Import ListNotations.
 Require Import C01.Sums C01.Batch C01.Tensor C01.OpExpr C01.Model C01.Covered.
-Require Import C01.ProofsBase C01.ProofsAlg C01.ProofsKron C01.ProofsStruct C01.ProofsSize C01.ProofsMain C01.ProofsTr.
+Require Import C01.ProofsBase C01.ProofsAlg C01.ProofsKron C01.ProofsStruct C01.ProofsMore C01.ProofsSize C01.ProofsMain C01.ProofsTr.
 Open Scope Z_scope.
 
 (* MAIN THEOREM (partial: restricted to [covered]).  For every operator expression of ANY nesting depth built
@@ -24,6 +24,12 @@ Open Scope Z_scope.
 Theorem C01_matmul_partial : forall e, wf e -> covered e ->
   forall (t : bool) X, okrhs (mt t (denote e)) X -> mm t e X == dmm (mt t (denote e)) X.
 Proof. intros e HW HC t X HX. exact (mm_correct e HW HC t X HX). Qed.
+
+(* the PUBLIC product op @ X / op.matmul(X): class overrides (Diag family, Identity, Zero; Interpolated's gather /
+   scatter sums) or Matmul.apply -> _matmul.  A 1-D right-hand side is its n x 1 matrix (unsqueeze / squeeze). *)
+Theorem C01_matmul_public_partial : forall e, wf e -> covered e ->
+  forall X, okrhs (denote e) X -> pub_matmul e X == dmm (denote e) X.
+Proof. intros e HW HC X HX. exact (pub_correct e HW HC X HX). Qed.
 
 (* _transpose_nonbatch: the transposed operator expression is again well formed and covered and denotes the
    transposed matrix (so op.mT @ X, by the main theorem applied to tr e, is D^T X) *)
@@ -80,6 +86,34 @@ Theorem C01_sum_batch_roundtrip : forall g Bm k bs,
   acts (fun X => blk_remove_sum (fr (g (blk_add_sum k X)))) (dsumbatch Bm).
 Proof. exact acts_sumbatch. Qed.
 
+(* boolean-mask operators: expand the rhs into the unmasked positions, multiply, select the masked rows *)
+Theorem C01_masked_correct : forall g B rm cm, length rm = nr B -> length cm = nc B -> acts g B ->
+  acts (fun X => mask_rows rm (fr (g (mask_expand cm X)))) (dmask B rm cm).
+Proof. exact acts_masked. Qed.
+
+(* interpolation: the gather-sum is W R, the scatter-sum (duplicate indices add) is W^T X *)
+Theorem C01_interp_gather_correct : forall idx val n, bsh val = bsh idx -> idx_okb idx n = true ->
+  acts (interp_gather idx val) (dinterp idx val n).
+Proof. exact interp_gather_correct. Qed.
+Theorem C01_interp_t_scatter_correct : forall idx val n, bsh val = bsh idx ->
+  acts (fun X => interp_scatter idx val X n) (dtr (dinterp idx val n)).
+Proof. exact interp_scatter_correct. Qed.
+
+(* concatenation along rows (results stacked) and along columns (rhs cut into row blocks, partial products added) *)
+Theorem C01_cat_rows_correct : forall (T : Type) (f : T -> BT -> BT) (D : T -> BT) x ops,
+  (forall y, In y (x :: ops) -> acts (f y) (D y) /\ bsh (D y) = bsh (D x) /\ nc (D y) = nc (D x)) ->
+  acts (fun X => dcat_rows (map (fun y => fr (f y X)) (x :: ops))) (dcat (map D (x :: ops)) CatRows).
+Proof. intros T f D. exact (acts_cat_rows f D). Qed.
+Theorem C01_cat_cols_correct : forall (T : Type) (f : T -> BT -> BT) (D : T -> BT) (len : T -> nat) x ops,
+  (forall y, In y (x :: ops) -> acts (f y) (D y) /\ bsh (D y) = bsh (D x) /\ nr (D y) = nr (D x) /\ len y = nc (D y)) ->
+  acts (fun X => dsum_pieces (pieces f len X (x :: ops) 0)) (dcat (map D (x :: ops)) CatCols).
+Proof. intros T f D len. exact (acts_cat_cols f D len). Qed.
+
+(* Kronecker product of diagonal operators: _kron_diag builds the diagonal of the Kronecker product *)
+Theorem C01_kron_diag_correct : forall ds, forallb (fun d => pos (nr d)) ds = true -> pwc (map bsh ds) = true ->
+  kronl (map ddiag ds) == ddiag (kron_diag_vec ds).
+Proof. exact kronl_ddiag. Qed.
+
 (* the library's batch-shape rule (torch.broadcast_shapes as used by _matmul_broadcast_shape) is torch's
    documented rule: align at the right, sizes equal or 1, result takes the non-1 size; for ALL shapes *)
 Theorem C01_broadcast_shapes : forall a b r, torch_broadcast_shapes a b = Some r <-> torch_rule a b r.
@@ -105,7 +139,11 @@ Example C01_nonvacuous :
   let d := of_table [] 2 1 [[[2]; [3]]] in
   let col := of_table [] 2 1 [[[2]; [1]]] in
   let e := Sum [Kron [Dense A; Toeplitz col]; BlockDiag (Dense (of_table [2%nat] 2 2 [[[1; 0]; [0; 1]]; [[1; 1]; [1; 1]]]));
-                Matmul (Root (Diag (of_table [] 4 1 [[[1]; [2]; [3]; [4]]]))) (ConstantMul (Identity 4 []) (of_table [] 1 1 [[[5]]]))] in
+                Matmul (Root (Diag (of_table [] 4 1 [[[1]; [2]; [3]; [4]]]))) (ConstantMul (Identity 4 []) (of_table [] 1 1 [[[5]]]));
+                Masked (Cat [Dense (of_table [] 5 2 [[[1;2];[3;4];[5;6];[7;8];[9;0]]]); Dense (of_table [] 5 3 [[[1;0;0];[0;1;0];[0;0;1];[1;1;1];[2;2;2]]])] CatCols)
+                       [true; true; false; true; true] [true; false; true; true; true];
+                Interpolated (TransposePermutation 2) (of_table [] 4 1 [[[0];[2];[2];[3]]]) (of_table [] 4 1 [[[1];[2];[1];[1]]])
+                             (of_table [] 4 2 [[[0;1];[1;1];[3;0];[2;2]]]) (of_table [] 4 2 [[[1;1];[1;2];[1;1];[1;1]]])] in
   let X := of_table [2%nat; 3%nat] 4 1 [[[1];[0];[0];[0]]; [[0];[1];[0];[0]]; [[1];[1];[0];[0]]; [[0];[0];[1];[0]]; [[0];[0];[0];[1]]; [[1];[1];[1];[1]]] in
   wf e /\ covered e /\ okrhs (denote e) X.
 Proof. vm_compute. repeat split. Qed.
